@@ -1615,6 +1615,8 @@ class TT():
                 "n-model product works only with TT-tensors and not TT matrices.")
 
         if isinstance(factor_matrices, list) and isinstance(mode, list):
+            if len(factor_matrices) != len(mode):
+                raise InvalidArguments('Invalid arguments.')
             cores_new = [c.clone() for c in self.cores]
             for i in range(len(factor_matrices)):
                 if cores_new[mode[i]].shape[1] != factor_matrices[i].shape[1]:
